@@ -288,9 +288,13 @@ func FactsAtBlock(b *ssa.BasicBlock) []Fact {
 		top = top.Parent()
 	}
 	if hi := newHelpers[top]; hi != nil && top == fn {
-		// facts common to every call site
+		// facts common to every call site (inside AtSite: the facts at that one site)
 		var common map[string]Fact
-		for _, s := range hi.sites {
+		sites := hi.sites
+		if ctxSite != nil && ctxSite.Common().StaticCallee() == top {
+			sites = []ssa.CallInstruction{ctxSite}
+		}
+		for _, s := range sites {
 			m := map[string]Fact{}
 			for _, f := range FactsAt(s.(ssa.Instruction)) {
 				m[f.Atom] = f
